@@ -66,32 +66,33 @@ fn build_config(c: &Val, rec: &Rec, drops: Option<&DropLog>) -> Option<Config> {
         _ => None,
     };
     let dl: DropLog = drops.cloned().unwrap_or_else(|| Arc::new(Mutex::new(vec![])));
-    let mut builder = Config::builder();
-    for (i, a) in c[0].l().iter().enumerate() {
-        builder = builder.appender(Appender::builder().build(
-            a.str(),
-            Box::new(ProbeAppender {
-                idx: i,
-                rec: rec.clone(),
-                probe: if i == 0 { probe.clone() } else { None },
-                drops: dl.clone(),
-            }),
-        ));
-    }
-    for lg in c[2].l() {
-        let lg = lg.l();
-        let mut lb = Logger::builder().additive(lg[2].b());
-        for a in lg[3].l() {
-            lb = lb.appender(a.str());
-        }
-        builder = builder.logger(lb.build(lg[0].str(), level_filter(lg[1].n())));
-    }
+    let apps = c[0]
+        .l()
+        .iter()
+        .enumerate()
+        .map(|(i, a)| {
+            Appender::builder().build(
+                a.str(),
+                Box::new(ProbeAppender {
+                    idx: i,
+                    rec: rec.clone(),
+                    probe: if i == 0 { probe.clone() } else { None },
+                    drops: dl.clone(),
+                }),
+            )
+        })
+        .collect();
+    let loggers = c[2]
+        .l()
+        .iter()
+        .map(|lg| {
+            let lg = lg.l();
+            (lg[0].str(), level_filter(lg[1].n()), lg[2].b(), lg[3].l().iter().map(|a| a.str()).collect())
+        })
+        .collect();
     let r = c[1].l();
-    let mut root = Root::builder();
-    for a in r[1].l() {
-        root = root.appender(a.str());
-    }
-    let mut config = builder.build(root.build(level_filter(r[0].n()))).ok()?;
+    let (builder, root) = assemble(apps, loggers, level_filter(r[0].n()), r[1].l().iter().map(|a| a.str()).collect());
+    let mut config = builder.build(root).ok()?;
     // post-build mutation through the public API
     if let Some(t) = c.get(3) {
         if let Some(l) = t.l().first() {
